@@ -962,7 +962,7 @@ package rewriter
 //@   modifies W
 //@ closure optimizer.optimizeAllFiles#0 as @VisitAllFiles.0 (f)
 //@   captured-inv o != nil && printer != nil && seqPkg != nil      -- optimizeAllFiles returns early when the seq package is not loaded
-//@   requires f != nil
+//@   requires f != nil && f.Pkg != nil      -- go-loader: VisitAllFiles hands out files together with their package
 //@   ensures[skips-foreign-files] !fileUsesSeq(ptr(f)) ==> W == old(W)
 //@   ensures[imports-cleaned-last] fileUsesSeq(ptr(f)) ==> W == printed(ptr(f), importsCleaned(ptr(f), etaReduced(delayElided(old(W)))))
 //@   modifies W
